@@ -25,6 +25,8 @@ ALLOW = {}
 # what db_for_read / db_for_write answer for every model without a route (None: no opinion; an alias: the
 # catch-all `return 'default'` that ends the primary/replica router of the Django documentation)
 CATCH_ALL = [None]
+# app label -> alias: the answer to allow_migrate(db, app_label) without a model name
+APP_LEVEL = {}
 
 
 class Router(object):
@@ -33,6 +35,9 @@ class Router(object):
         key = (app_label, model_name or '')
         if key in ALLOW:
             return db == ALLOW[key]
+        if model_name is None and app_label in APP_LEVEL:
+            # the model-less question (asked for RunPython / RunSQL operations): a definite per-app answer
+            return db == APP_LEVEL[app_label]
         return None
 
     allow_syncdb = allow_migrate
@@ -48,11 +53,13 @@ class Router(object):
 """
 
 
-def set_routes(mapping, catch_all=None):
+def set_routes(mapping, catch_all=None, app_level=None):
     import vrouter
     vrouter.ALLOW.clear()
     vrouter.ALLOW.update(mapping)
     vrouter.CATCH_ALL[0] = catch_all
+    vrouter.APP_LEVEL.clear()
+    vrouter.APP_LEVEL.update(app_level or {})
 
 
 # an app that has been on Django migrations from its first release: a `migrations` package on disk and no
